@@ -83,3 +83,10 @@ def _v10(repo, mod):
 def _v11(repo, mod):
     fn = repo.func(TR, "_positive_distance")
     return insert_before(mod, fn.body[-1], "_unused = distance")
+
+
+@variant("C04", "size-of-truthy-objects", TR, "C04.numeric", "len() used as false distance for objects that define __bool__ (seed C04-c)")
+def _vb1(repo, mod):
+    fn = repo.func(TR, "ExecutionTracer.executed_bool_predicate")
+    t = find_node(fn, lambda n: isinstance(n, ast.BoolOp) and "Sized" in norm(n))
+    return replace_node(mod, t, "isinstance(value, Sized)")
